@@ -41,7 +41,7 @@ def universe_for(T):
     return u
 
 
-CORE = ["k1", "k19999", "k20000", "k30000", "exp_Tm1", "exp_T", "exp_Tp1", "exp_5", "exp_abc", "exp_Tm1_tagged"]
+CORE = ["k1", "k19999", "k20000", "k30000", "exp_Tm1", "exp_T", "exp_Tp1", "exp_5", "exp_abc", "exp_Tm1_tagged", "exp_empty"]
 
 
 def universes():
@@ -99,6 +99,7 @@ def cases(tier):
                 out.append(("subsets", backend, tn, tuple(subs[lo:lo + BLOCK])))
         out.append(("ephemeral", backend))
         out.append(("periodic", backend))
+        out.append(("twopass", backend))
     return out
 
 
@@ -285,11 +286,73 @@ def run_periodic(case):
     return viol, set(), 3, 1
 
 
+def run_twopass(case):
+    """ONE collector object runs several passes (as the periodic driver does); events that arrive between two passes - among them
+    events that are already expired on arrival - are judged by the pass that follows"""
+    import itertools
+
+    _, backend = case
+    sess = seq.session(backend)
+    w = sess.w
+    T1, T2, T3 = 1_700_000_000, 1_700_000_300, 1_700_000_600
+    viol = []
+    n = 0
+    arrivals = {
+        "expired_long_ago": make_event("A", 1, 200, [["expiration", str(T1 - 1000)]], "a"),
+        "expired_just_before_T1": make_event("A", 1, 201, [["expiration", str(T1 - 1)]], "b"),
+        "expires_between": make_event("A", 1, 202, [["expiration", str(T1 + 100)]], "c"),
+        "expires_after_T3": make_event("A", 1, 203, [["expiration", str(T3 + 100)]], "d"),
+        "short_digits": make_event("A", 1, 204, [["expiration", "7"]], "e"),
+        "no_expiration": make_event("A", 1, 205, [], "f"),
+        "ephemeral": make_event("A", 20005, 206, [], "g"),
+    }
+    names = list(arrivals)
+    for first in ([], ["expired_long_ago"], ["no_expiration"]):
+        for between in itertools.chain(*[itertools.combinations(names, r) for r in (1, 2)]):
+            sess.reset()
+            gc = w.ns.db.QueryGarbageCollector(w.storage) if backend == "sql" else w.ns.kv.KVGarbageCollector(w.storage)
+
+            def one_pass(T):
+                old = CLOCK.now
+                CLOCK.now = float(T) + 0.5
+                try:
+                    try:
+                        w.call(gc.run_once())
+                    except Exception:
+                        pass
+                    w.run()
+                finally:
+                    CLOCK.now = old
+
+            for nm in first:
+                sess.submit(arrivals[nm])
+            one_pass(T1)
+            for nm in between:
+                sess.submit(arrivals[nm])
+            pre = store.decode_store(backend, sess.dump())
+            one_pass(T2)
+            post = store.decode_store(backend, sess.dump())
+            n += 1
+            sig = "first=%s|between=%s" % (",".join(first) or "-", ",".join(between))
+            for nm in list(first) + list(between):
+                e = arrivals[nm]
+                if e["id"] in post and must_remove(e, T2):
+                    viol.append({"case": "%s|twopass" % backend, "clause": "expired-or-ephemeral-removed", "sig": nm + "|" + sig,
+                                 "detail": "%s survives the second pass (T=%d) of the same collector object | %s" % (nm, T2, sig)})
+                if e["id"] in pre and e["id"] not in post and must_keep(e, T2):
+                    viol.append({"case": "%s|twopass" % backend, "clause": "nothing-else-removed", "sig": nm + "|" + sig,
+                                 "detail": "%s was removed by the second pass (T=%d) | %s" % (nm, T2, sig)})
+    return viol, set(), n, 1
+
+
 def run_case(case):
     kind = case[0]
     if kind == "subsets":
         viol, states, trans, nt = run_subsets(case)
         cid = "%s|%s|block=%s" % (case[1], case[2], store.sdigest(case[3]))
+    elif kind == "twopass":
+        viol, states, trans, nt = run_twopass(case)
+        cid = "%s|twopass" % case[1]
     elif kind == "ephemeral":
         viol, states, trans, nt = run_ephemeral(case)
         cid = "%s|ephemeral" % case[1]
